@@ -33,6 +33,12 @@ func (w *walker) emit(s string) { w.out = append(w.out, s) }
 func text(e ast.Expr) string { return strings.Join(strings.Fields(types.ExprString(e)), " ") }
 
 func isInteresting(name string) bool {
+	// every operation on the shared counter, the pipe buffer, the worker wait group and the error collector
+	for _, pre := range []string{"descentCount.", "buffer.", "workerWG.", "errorCollector."} {
+		if strings.HasPrefix(name, pre) {
+			return true
+		}
+	}
 	for _, i := range interesting {
 		if name == i {
 			return true
